@@ -1,5 +1,5 @@
 """C11 — AVX512 lane kernels equal the scalar field op in every lane, for every input.
-Same model module as C02 (LaneKernels.tla): the AVX512 kernels use unsigned mask compares; add_avx512_b_c / sub_avx512_b_c
+Same generated model module as C02 (LaneKernels.tla, from the current tree): the AVX512 kernels use unsigned mask compares; add_avx512_b_c / sub_avx512_b_c
 are exact exactly for a canonical second operand (TLC also exhibits a failure outside that assumption: non-vacuity), the
 general-purpose kernels for all 2^64 lane values.  TLC W in {2,3,4}; Apalache W=32 (7 obligations + the shared product
 lemmas).  Conformance: the -mavx512f -D__AVX512__ build (which the shipped test build never selects) executed on this
@@ -7,19 +7,19 @@ CPU: 8-lane groups in every lane position; Trace_Lane validates every lane."""
 import json
 import vlib, lanelib
 from vlib import Check, workdir
-APA = ['InvToCanon512', 'InvAdd512', 'InvAddBC512', 'InvSub512', 'InvSubBC512', 'InvReduce128_512', 'InvReduce96_512', 'InvMult128P', 'InvMult72P', 'InvSquare128P']
+APA = ['InvToCanon512', 'InvAdd512', 'InvAddBC512', 'InvSub512', 'InvSubBC512', 'InvReduce128_512', 'InvReduce96_512', 'InvMult128P_512', 'InvMult72P_512', 'InvSquare128P_512']
 
 
 def run(tier, seed, replay=None):
     ck = Check('C11', tier, seed)
     wd = workdir('C11')
-    ck.assumptions += ['the lane model is a hand transcription of the intrinsics; the compiled kernels are bound by replay',
+    ck.assumptions += ['the lane model is GENERATED from the intrinsic code of the current tree (tools/avx2tla.py; trusted: its intrinsic semantics table); model counterexamples are replayed on the compiled kernels',
                        'requires an AVX512F CPU for the replay; without one only the model-level results are reported']
     if replay:
         cases = [lanelib.case_from_json(c) for c in json.load(open(replay))['case']['cases']]
     else:
-        lanelib.model_lane(ck, wd, tier, APA)
-        cases = lanelib.lane_cases(lanelib.LANE512, seed, tier)
+        leads = lanelib.model_lane(ck, wd, tier, APA)
+        cases = lanelib.lead_cases(lanelib.LANE512, leads) + lanelib.lane_cases(lanelib.LANE512, seed, tier)
     if vlib.have_avx512():
         lanelib.replay(ck, wd, 'avx512', cases, 'AVX512 lane kernels (%d register groups, 13 kernels)' % len(cases),
                        lambda c, r: 'kernel %s lanes a=%s b=%s' % (c[1], ' '.join('%x' % p[0] for p in c[2]), ' '.join('%x' % p[1] for p in c[2])))
